@@ -201,6 +201,37 @@ func runCacheCase(t *testing.T, ops []cacheOp) (coq string, flags map[string]boo
 					}
 
 					items = append(items, fmt.Sprintf("(KList %s (Some %s))", coqSel(o.Sel), coqList(rendered)))
+
+					if len(o.Sel) == 0 {
+						// ID selectors: the cached listing under a regular expression is the unfiltered listing (compared with
+						// the model above) restricted to the ids the expression matches - literal, anchored or not, empty
+						for _, re := range idQueryCorpus {
+							fl, ferr := c.List(ctx, kind, state.WithIDQuery(resource.IDRegexpMatch(re)))
+							if ferr != nil {
+								t.Fatalf("list with id query: %v", ferr)
+							}
+
+							var want, got []string
+
+							for _, r := range l.Items {
+								if re.MatchString(r.Metadata().ID()) {
+									want = append(want, r.Metadata().ID()+"@"+r.Metadata().Version().String())
+								}
+							}
+
+							for _, r := range fl.Items {
+								got = append(got, r.Metadata().ID()+"@"+r.Metadata().Version().String())
+							}
+
+							if fmt.Sprint(want) != fmt.Sprint(got) {
+								problems = append(problems, fmt.Sprintf("cached-id-list-differs: cached List with ID query %q returns %v, the cached kind holds %v of which %v match", re.String(), got, rendered0(l), want))
+							}
+
+							if len(want) > 0 && len(want) < len(l.Items) {
+								flags["id_query_selects_a_proper_subset"] = true
+							}
+						}
+					}
 				}
 			case "ctx":
 				var (
@@ -283,7 +314,7 @@ func runCacheCase(t *testing.T, ops []cacheOp) (coq string, flags map[string]boo
 func genCacheCase(r *rng) []cacheOp {
 	var (
 		ops   []cacheOp
-		ids   = []string{"a", "b", "c", "d"}
+		ids   = []string{"a", "ab", "b", "ba"} // sorted; ids that extend each other (prefix / substring selectors must tell them apart)
 		ver   = map[string]int{}
 		nextK = 0
 		boot  = false
@@ -355,6 +386,21 @@ func genCacheCase(r *rng) []cacheOp {
 }
 
 // ---- a reader overlapping a cache update: the cached objects' Metadata() can park the reader once --------
+
+// idQueryCorpus: ID selectors evaluated on cached listings (ids in the op strings are short and extend each other).
+var idQueryCorpus = []*regexp.Regexp{
+	regexp.MustCompile("a"), regexp.MustCompile("b"), regexp.MustCompile("ab"), regexp.MustCompile(""), regexp.MustCompile("^a$"),
+	regexp.MustCompile("^a"), regexp.MustCompile("b$"), regexp.MustCompile("[ac]"), regexp.MustCompile("^(a|ab)$"),
+}
+
+func rendered0(l resource.List) []string {
+	out := make([]string, 0, len(l.Items))
+	for _, r := range l.Items {
+		out = append(out, r.Metadata().ID())
+	}
+
+	return out
+}
 
 type luCase struct {
 	Init   []string `json:"init"`   // ids in the cache (sorted), all labelled k=v
